@@ -170,7 +170,9 @@ var None = newFormatContext2(DefaultIndentation, DefaultFormats, nil)
 
 var Expanded = newFormatContext2(DefaultIndentation, DefaultFormats, map[string]string{`expanded`: `true`})
 
-var Program = newFormatContext2(DefaultIndentation, px.FormatMap(singleMap(DefaultAnyType(), DefaultObjectFormat)), nil)
+// Program prints a value as source text that Parse reads back: arrays in brackets, hashes in braces, only the
+// arguments of an object in parentheses, everything in its program form (%p)
+var Program = newFormatContext2(DefaultIndentation, DefaultContainerFormats, nil)
 
 func newFormatContext(t px.Type, format px.Format, indentation px.Indentation) px.FormatContext {
 	return &formatContext{indentation, WrapHash([]*HashEntry{WrapHashEntry(t, format)}), nil}
